@@ -6,8 +6,7 @@
    Definitions only (proofs: Lemmas/Bip32Slip10.v).  All constants come from Gen/DerivConsts.v.
 
    MAIN MODEL = what the property demands: [ckd_priv_ecdsa] / [ckd_pub_ecdsa] contain the SLIP-0010
-   re-hash loop for an out-of-range left half or a zero child ([slip10_retry_prefix] is the one
-   constant of the standard that has no counterpart in the library yet).  The code as it stands has
+   re-hash loop for an out-of-range left half or a zero child.  The code as it stands has
    no such loop (defect F1); its behaviour is kept as [ckd_priv_ecdsa_current] / [ckd_pub_ecdsa_current].
 
    Oracles (Section variables): hmac512, hash160, the group operations of the ECDSA curve, and
@@ -35,8 +34,9 @@ Definition ser32 (i : N) : res (list N) := int_to_be_fixed bip32_index_len i.
 Definition left_half (I : list N) : list N := firstn hmac512_half_len I.
 Definition right_half (I : list N) : list N := skipn hmac512_half_len I.
 
-(* SLIP-0010: "let I = HMAC-SHA512(Key = c_par, Data = 0x01 || IR || ser32(i)) and restart" *)
-Definition slip10_retry_prefix : list N := [1].
+(* SLIP-0010: "let I = HMAC-SHA512(Key = c_par, Data = 0x01 || IR || ser32(i)) and restart": the prefix is
+   [slip10_retry_prefix] of Gen/DerivConsts.v (the library's constant once fixes/F1.diff is in, the standard's
+   value until then; Lemmas/DerivConstsOk.v proves it is [1] either way). *)
 
 Definition is_ok {A} (r : res A) : bool := match r with inl _ => true | inr _ => false end.
 
